@@ -382,6 +382,9 @@ def check_mappings(ctx):
     ctx.need(len(a) >= 3, "cat.Functor.__init__ takes fewer than (ob, ar)")
     st = [s for s in shape.expand_tuple_assigns(fi.body) if isinstance(s, ast.Assign) and ast.unparse(s.targets[0]) in ("self._ob", "self._ar")]
     shape.match_stmts(ctx, "R04.7", CAT_ + ".Functor.__init__:mappings", st, ["self._ob = ob", "self._ar = ar"], {a[1]: "ob", a[2]: "ar"}, mod=CAT_, node=fi, sig="functor-mappings", exact=True, required="the two mappings are kept as given")
+    shape.match_stmts(ctx, "R04.7", CAT_ + ".Functor.__init__:factories", [s for s in shape.expand_tuple_assigns(fi.body) if isinstance(s, ast.If) or (isinstance(s, ast.Assign) and "factory" in ast.unparse(s.targets[0]))],
+                      ["if ob_factory is None:\n    ob_factory = Ob", "if ar_factory is None:\n    ar_factory = Arrow", "self.ob_factory = ob_factory", "self.ar_factory = ar_factory"], mod=CAT_, node=fi,
+                      sig="functor-factories", exact=True, required="the factories given, else those of the free category, each under its own name")
     ob = m.func(CAT_ + ".Functor.ob")
     shape.match(ctx, "R04.7", CAT_ + ".Functor.ob", ret_expr(ob.body), "self._ob if isinstance(self._ob, Mapping) else Quiver(self._ob)", {}, mod=CAT_, node=ob, sig="functor-ob", required="a mapping as it is, a function as a Quiver over it")
     ar = m.func(CAT_ + ".Functor.ar")
